@@ -577,13 +577,19 @@ impl Quantity {
             .add_point_zero(false)
             .force_no_e_notation()
             .round();
+        // The same problem exists for every value below one unit of the last printed digit,
+        // e.g. 0.0094 with two decimal digits: such a value is printed as zero or as one unit
+        // of the last digit, and we decide which ourselves.
         let value = self.value.to_f64();
-        if value.abs() < 1.0 {
-            // the same problem for a value in [0.5, 1) * 10^-precision, e.g. 0.0094 with two
-            // decimal digits: round small values ourselves.
-            let scale = 10f64.powi(precision.into());
-            let rounded = Quantity::new_f64((value * scale).round() / scale, self.unit.clone());
-            return rounded.pretty_print_internal(&FormatOptions::default(), Some(dtoa_config));
+        let last_digit_unit: f64 = format!("1e-{precision}").parse().unwrap_or(0.0);
+        if value.abs() < last_digit_unit {
+            let rounded = if value.abs() * 2.0 >= last_digit_unit {
+                last_digit_unit.copysign(value)
+            } else {
+                0.0
+            };
+            return Quantity::new_f64(rounded, self.unit.clone())
+                .pretty_print_internal(&FormatOptions::default(), Some(dtoa_config));
         }
         self.pretty_print_internal(&FormatOptions::default(), Some(dtoa_config))
     }
